@@ -252,35 +252,46 @@ def run(ctx):
     stats = dict(histories=0, nprocs={}, format={}, steps={}, subset_waits=0, with_sleeps=0, observations_compared=0,
                  histories_outside_head_ok=0, oracle_failures=0, model_disagreements=0)
     hists = list(G.directed())
-    hists += list(G.exhaustive(3 if thorough else 2, 0, 1))
+    hists += list(G.exhaustive(2, 0, 1))
     if thorough:
         hists += list(G.exhaustive(2, 1, 5))
     else:
         # a sample of the 3-letter words
         r3 = ctx.rng.fork('w3')
         seen = set()
-        while len(seen) < 500:
+        while len(seen) < 150:
             w = tuple(r3.choice(G.ALPHABET) for _ in range(3))
             if w not in seen:
                 seen.add(w); hists.append(G.word_hist(w, 0, 1))
-    nrand = 2500 if thorough else 400
+    nrand = 2500 if thorough else 300
     for i in range(nrand):
         hists.append(G.random_hist(ctx.rng.fork('r-%d' % i), i))
     of, dis = evaluate(ctx, hists, impl, wd, variant or 'head', stats, 'a')
-    # failing-input search: all words of <= 4 letters (thorough: always, words of exactly 4 letters
-    # without calls that the data mode rejects - such a word acts like a shorter one; quick: when a proof or
-    # the correspondence is broken and no failing input is known yet, all words of <= 3 letters)
+    # failing-input search over all words of <= 4 letters.  thorough: always (all 3-letter words, then the
+    # 4-letter words without calls that the data mode rejects - such a word acts like a shorter one), in random
+    # order under a time budget; quick: all words of <= 3 letters, when a proof or the correspondence is
+    # broken and no failing input is known yet
     need_search = (not proof_ok or variant is None or dis) and not of
     if thorough or need_search:
         done = {h.name for h in hists}
+        extra = [h for h in G.exhaustive(3, 0, 1, minlen=3) if h.name not in done]
+        ctx.rng.fork('w3s').shuffle(extra)
+        stats['search'] = 'all words <= 3 letters'
         if thorough:
-            extra = list(G.exhaustive(4, 0, 1, minlen=4, prune=True))
-            stats['search'] = 'all words <= 3 letters + all %d mode-accepted words of 4 letters' % len(extra)
-        else:
-            extra = [h for h in G.exhaustive(3, 0, 1) if h.name not in done]
-            stats['search'] = 'all words <= 3 letters'
-        of2, dis2 = evaluate(ctx, extra, impl, wd, variant or 'head', stats, 's')
-        of += of2; dis += dis2
+            e4 = list(G.exhaustive(4, 0, 1, minlen=4, prune=True))
+            ctx.rng.fork('w4').shuffle(e4)       # a time-limited run covers a uniform sample
+            stats['search'] += ' + the %d mode-accepted words of 4 letters' % len(e4)
+            extra += e4
+        budget = (16 if thorough else 2.5) * 60
+        covered = 0
+        for j in range(0, len(extra), 4000):
+            if time.time() - ctx.t0 > budget:
+                stats['search_truncated'] = 'time budget reached after %d of %d search words' % (covered, len(extra))
+                break
+            of2, dis2 = evaluate(ctx, extra[j:j + 4000], impl, wd, variant or 'head', stats, 's%d' % j)
+            covered += len(extra[j:j + 4000])
+            of += of2; dis += dis2
+        stats['search_words_run'] = covered
     ctx.cov['rule'] = ('histories = directed witnesses + all words over the 19-letter alphabet %s up to the stated length '
                        '(2 ranks, record variable R + fixed variable F) + random histories (2-4 ranks, 1-2 record variables, '
                        'CDF-1/2/5, iput/bput/varn, subsets, sleeps); non-trivial = at least one record write completes and the '
